@@ -328,8 +328,11 @@ Fixpoint bisect_replay (c : cfg) (s : sstate) (pool : list req) (evs : list (Z *
   end.
 
 Definition uids (l : list req) : list Z := map r_uid l.
+(* the recorded calls name exactly the pool's tasks, each as often as it occurs
+   (lazy_bisect handles every index once) *)
+Definition zcount (x : Z) (l : list Z) : nat := length (filter (Z.eqb x) l).
 Definition same_set (a b : list Z) : bool :=
-  (Nat.eqb (length a) (length b)) && forallb (fun x => zmem x b) a && forallb (fun x => zmem x a) b.
+  forallb (fun x => Nat.eqb (zcount x a) (zcount x b)) (a ++ b).
 
 Definition set_pool (s : sstate) (wp : list (Z * list req)) : sstate :=
   mkS (nodes s) (offset s) (colo s) (tagged s) wp (active_cnt s) (named_envs s)
